@@ -232,8 +232,27 @@ def sftp_run(listing, nested, api):
                 srv.answer(0)
         sftp = start.result()
         mon = fsmon.start(dest)
+        old_cwd = os.getcwd()
         try:
-            if api == 'get':
+            if api.startswith('nolocal'):
+                # no local path given: the download goes to the local working directory (made the destination here),
+                # wherever the server says the remote working directory is
+                os.chdir(dest)
+                srv.realpath_answer = {'nolocal-sibling': os.path.join(w, 'sibling').encode(), 'nolocal-parent': w.encode(),
+                                       'nolocal-dotdot': b'..', 'nolocal-plain': None}[api.split(':')[0]]
+                how = api.split(':')[1]
+
+                async def nolocal():
+                    await sftp.chdir(b'/dir')
+                    await sftp.getcwd()
+                    if how == 'get':
+                        await sftp.get(b'a')
+                    elif how == 'get-recurse':
+                        await sftp.get(b'/dir', recurse=True)
+                    else:
+                        await sftp.mget(b'*', recurse=True)
+                coro = nolocal()
+            elif api == 'get':
                 coro = sftp.get(b'/dir', dest.encode(), recurse=True, follow_symlinks=False)
             elif api == 'get-preserve':
                 coro = sftp.get(b'/dir', dest.encode(), recurse=True, follow_symlinks=False, preserve=True)
@@ -268,6 +287,7 @@ def sftp_run(listing, nested, api):
                 t.exception()
         finally:
             fsmon.stop()
+            os.chdir(old_cwd)
         for op, p, phys, ro in mon.violations:
             if not ro:
                 viol.append(('write-outside-destination', '%s(%r) resolves to %s' % (op, p, phys)))
@@ -432,6 +452,10 @@ def run(tier, seed):
     acc = core.pmap(scp_worker, core.rotate([seqs[i::64] for i in range(64)], seed))
     ents = [(n, k) for n in NAMES for k in ('f', 'd', 'l')]
     jobs = []
+    for where in ('nolocal-sibling', 'nolocal-parent', 'nolocal-dotdot', 'nolocal-plain'):
+        for how in ('get', 'get-recurse', 'mget'):
+            for kind in ('f', 'd', 'l'):
+                jobs.append((((b'a', kind),), (b'inner',), where + ':' + how))
     for api in ('get-follow', 'get-follow-preserve', 'mget-follow-preserve', 'get-preserve'):
         for n in (b'a', b'..', b'a/b'):
             jobs.append((((n, 'L'),), (b'inner',), api))
